@@ -514,6 +514,29 @@ func (en *Engine) runUntilBranch(st *State) ([]*State, *Terminal, error) {
 			av := en.eval(st, fr, x.Addr)
 			vv := en.eval(st, fr, x.Val)
 			st.addEvent(&Event{Kind: EvDeref, Instr: x, X: av})
+			if _, isC := vv.(*ConstV); !isC && isBoolType(x.Val.Type()) {
+				// a flag assigned from a boolean expression: split on its truth, exactly as `if e { f = true } else { f = false }`
+				cnd, pol := normCond(vv, true)
+				computed := false // a comparison or a predicate call, not a copy of (the negation of) stored data
+				switch cnd.(type) {
+				case *BinV, *CallV:
+					computed = true
+				}
+				if computed {
+					if b, known := decide(st, cnd); known {
+						vv = boolV(b == pol)
+					} else {
+						s2 := st.clone()
+						st.facts = append(st.facts, Fact{Cond: cnd, Pol: pol, Instr: x, Seq: len(st.events)})
+						en.store(st, av, boolV(true))
+						st.addEvent(&Event{Kind: EvStore, Instr: x, Addr: av, Val: boolV(true)})
+						s2.facts = append(s2.facts, Fact{Cond: cnd, Pol: !pol, Instr: x, Seq: len(s2.events)})
+						en.store(s2, av, boolV(false))
+						s2.addEvent(&Event{Kind: EvStore, Instr: x, Addr: av, Val: boolV(false)})
+						return []*State{st, s2}, nil, nil
+					}
+				}
+			}
 			en.store(st, av, vv)
 			st.addEvent(&Event{Kind: EvStore, Instr: x, Addr: av, Val: vv})
 		case *ssa.MapUpdate:
@@ -869,6 +892,9 @@ func (en *Engine) store(st *State, addr, val Val) {
 				}
 			}
 		}
+	}
+	if ia, ok := addr.(*IndexAddrV); ok {
+		delete(st.heap, "slicecomp:"+ia.X.Key())
 	}
 	st.heap[k] = cell{addr, val}
 }
@@ -1966,6 +1992,49 @@ func (en *Engine) summariseAccumulators(st *State, fr *Frame, lc *loopCtx) {
 		st.heap["mapset:"+a.Key()] = cell{a, mkMap(coll, c.val, true, lc.id, types.NewSlice(mt.Key()))}
 		delete(st.heap, hk)
 		delete(st.heap, "mapsymn:"+a.Key())
+	}
+	// indexed fill: dst := make([]T, len(coll)) before the loop, dst[i] = f(coll[i]) once per iteration
+	if exitIdx := fr.env[cmp.X]; exitIdx != nil {
+		for hk, c := range st.heap {
+			ia, ok := c.addr.(*IndexAddrV)
+			if !ok || hk != ia.Key() {
+				continue
+			}
+			a, ok := ia.X.(*AllocV)
+			if !ok || a.Comment != "makeslice" {
+				continue
+			}
+			if mkBin(token.ADD, ia.I, intV(1), ia.I.Type()).Key() != exitIdx.Key() {
+				continue
+			}
+			ln, ok := st.heap["len:"+a.Key()]
+			if !ok || ln.val.Key() != bound.Key() {
+				continue
+			}
+			if _, before := lc.pre["len:"+a.Key()]; !before {
+				continue
+			}
+			if _, dirty := st.dirty[a.Key()]; dirty {
+				continue
+			}
+			n := 0
+			pfx := indexPrefix(a)
+			for k2 := range st.heap {
+				if strings.HasPrefix(k2, pfx) {
+					n++
+				}
+			}
+			for k2 := range lc.pre {
+				if strings.HasPrefix(k2, pfx) {
+					n += 2
+				}
+			}
+			if n != 1 {
+				continue
+			}
+			st.heap["slicecomp:"+a.Key()] = cell{a, mkMap(coll, c.val, true, lc.id, a.Type())}
+			delete(st.heap, hk)
+		}
 	}
 	// memory
 	for hk, c := range st.heap {
